@@ -10,15 +10,6 @@ Definition fault_sim (a b : fault) : bool :=
   | _, _ => false
   end.
 
-Definition trace_faults (tr : list call) : list fault :=
-  flat_map (fun c => match c with
-                     | CError _ _ k l => [FKind k l]
-                     | CMergeU _ _ u l => [FUser u l]
-                     | _ => []
-                     end) tr.
-Definition trace_ucalls (tr : list call) : list (N * list uarg) :=
-  flat_map (fun c => match c with CUser f args => [(f, args)] | _ => [] end) tr.
-
 (** the reports held by the error value returned by call [id]: what the final error is built from *)
 Fixpoint reports_under (tr : list call) (fuel : nat) (id : N) : list fault :=
   match fuel with
